@@ -98,6 +98,26 @@ world temps { import i; export i; }
 ]
 
 
+# WIT-declared async functions that mention the same future/stream type twice in a row, followed by
+# payloads of the other kind and of new types (params, results, nested), and later functions that
+# re-list an already seen type before a new one: every `[future-new-N]f` index is exercised
+PAYLOAD_INDEX_STRESS = ("payload-index-stress", "payloads", """package a:payloads;
+interface i {
+  record rec-with-future { f: future<u32>, n: u8 }
+  f: async func(a: future<u8>, b: future<u8>, c: stream<u8>) -> stream<string>;
+  g: async func(r: rec-with-future, s: rec-with-future) -> future<list<u8>>;
+  h: async func(a: future<u8>, b: stream<u16>, c: option<future<u8>>, d: tuple<stream<u8>, future<string>>) -> result<stream<u32>, future<u8>>;
+  k: async func(a: stream<u8>, b: stream<u8>, c: future<u64>) -> future<u64>;
+}
+world payloads {
+  import i;
+  export i;
+  import wf: async func(a: future<u8>, b: future<u8>, c: stream<u8>);
+  export we: async func(a: stream<string>, b: stream<string>) -> future<string>;
+}
+""")
+
+
 def corpus():
     """tests/codegen entries as crates/test sees them: [(name, wit_path, config)]."""
     root = os.path.join(vcommon.REPO, "tests", "codegen")
